@@ -6,6 +6,8 @@ import (
 	"encoding/json"
 	"errors"
 	"fmt"
+	"io"
+	"net"
 	"os"
 	"os/exec"
 	"regexp"
@@ -14,6 +16,7 @@ import (
 	"strings"
 	"sync"
 	"sync/atomic"
+	"syscall"
 	"time"
 
 	"github.com/scrapli/scrapligo/channel"
@@ -123,7 +126,71 @@ type c06env struct {
 	unsol func(class int) []byte // idle scenarios: what the device says unasked (by content class)
 }
 
+// The property quantifies over error VALUES ("persistent non-EOF error such as EIO / connection
+// reset"): every case draws the value its transport reports from these families. A value is of
+// the EOF kind iff errors.Is(err, io.EOF).
+type c06eofLookalike struct{}
+
+func (c06eofLookalike) Error() string { return "EOF" }
+
+type c06errVal struct {
+	name string
+	err  error
+}
+
+var c06readErrs = []c06errVal{
+	{"sim.ErrIO", sim.ErrIO},
+	{"net.OpError(ECONNRESET)", &net.OpError{Op: "read", Net: "tcp", Err: syscall.ECONNRESET}},
+	{"net.OpError(ETIMEDOUT)", &net.OpError{Op: "read", Net: "tcp", Err: syscall.ETIMEDOUT}},
+	{"os.ErrDeadlineExceeded", os.ErrDeadlineExceeded},
+	{"syscall.EAGAIN", syscall.EAGAIN},
+	{"io.ErrUnexpectedEOF", io.ErrUnexpectedEOF},
+	{"lookalike(\"EOF\")", c06eofLookalike{}},
+}
+
+var c06eofErrs = []c06errVal{
+	{"io.EOF", io.EOF},
+	{"wrapped(io.EOF)", fmt.Errorf("read tcp 10.0.0.1:22: %w", io.EOF)},
+}
+
+var c06writeErrs = []c06errVal{
+	{"sim.ErrWrite", sim.ErrWrite},
+	{"net.OpError(EPIPE)", &net.OpError{Op: "write", Net: "tcp", Err: syscall.EPIPE}},
+	{"net.OpError(ETIMEDOUT)", &net.OpError{Op: "write", Net: "tcp", Err: syscall.ETIMEDOUT}},
+	{"os.ErrDeadlineExceeded", os.ErrDeadlineExceeded},
+	{"syscall.EAGAIN", syscall.EAGAIN},
+	{"io.ErrClosedPipe", io.ErrClosedPipe},
+}
+
+// c06pick is the error value of a case (a function of the case line, so a replay draws the same).
+func c06pick(s c06scen, kind string, k int) c06errVal {
+	i := int((s.VSeed + uint64(k)) % 1000003)
+	switch kind {
+	case "eof":
+		return c06eofErrs[i%len(c06eofErrs)]
+	case "werr":
+		return c06writeErrs[i%len(c06writeErrs)]
+	}
+	return c06readErrs[i%len(c06readErrs)]
+}
+
+// c06curKind is the loss kind of the case being executed (cases run one at a time per process).
+var c06curKind string
+
 func c06ident(err error) string {
+	fams := [][]c06errVal{c06readErrs, c06writeErrs}
+	names := []string{"simio", "simwrite"}
+	if c06curKind == "werr" {
+		fams[0], fams[1] = fams[1], fams[0]
+		names[0], names[1] = names[1], names[0]
+	}
+	for fi, fam := range fams {
+		for _, v := range fam {
+			if err != nil && !errors.Is(err, util.ErrTimeoutError) && !errors.Is(err, util.ErrPrivilegeError) && errors.Is(err, v.err) {
+				return names[fi]
+			}
+		}
+	}
 	switch {
 	case err == nil:
 		return "nil"
@@ -389,6 +456,18 @@ func c06call(l *sim.Lossy, f func() (string, error)) c06res {
 // c06exec runs one case: kind "" is the lossless reference run.
 func c06exec(s c06scen, kind string, k int) (o c06obs) {
 	e := s.build()
+	c06curKind = kind
+	if kind != "" {
+		v := c06pick(s, kind, k)
+		switch kind {
+		case "eof":
+			e.lossy.EOFErr = v.err
+		case "werr":
+			e.lossy.WriteErr = v.err
+		default:
+			e.lossy.ReadErr = v.err
+		}
+	}
 	arm := func() {
 		e.pipe.SetFaults(func(p *sim.Pipe) {
 			switch kind {
@@ -428,6 +507,16 @@ func c06exec(s c06scen, kind string, k int) (o c06obs) {
 				o.Setup = "warm-up: " + err.Error()
 				return o
 			}
+		}
+		// quiesce: everything the device has emitted so far is delivered before the loss point is
+		// armed, so that byte k means the same in the reference run and in every case
+		for t0 := time.Now(); time.Since(t0) < 100*time.Millisecond; {
+			quiet := false
+			e.pipe.Snapshot(func() { quiet = e.pipe.Delivered == e.pipe.Emitted })
+			if quiet {
+				break
+			}
+			time.Sleep(100 * time.Microsecond)
 		}
 		if s.isNC() {
 			time.Sleep(2 * time.Millisecond) // let Driver.read drain what the warm-up left
@@ -1146,6 +1235,7 @@ func c06judge(c *ctx, sw *c06sweep, out map[int]c06out, answer string) {
 		}
 		res.Count("scenario:" + s.Name)
 		res.Count("kind:" + kind)
+		res.Count("error value:" + kind + ":" + c06pick(s, kind, k).name)
 		res.Count(fmt.Sprintf("seg:%d", s.Seg))
 		res.Count(fmt.Sprintf("dom:%v", dom))
 		if s.Rough > 0 {
@@ -1204,7 +1294,7 @@ func c06judge(c *ctx, sw *c06sweep, out map[int]c06out, answer string) {
 				res.Fail("oracle", caseLine, fmt.Sprintf("%s at byte %d of %d, before the exchange was complete, yet the operation reported success with %q (complete output %q)", kind, k, sw.L, op.Result, sw.ref.Op.Result), sig)
 				continue
 			case op.Ident == "timeout":
-				res.Fail("oracle", caseLine, fmt.Sprintf("%s at byte %d: the operation waited out its timeout (%d ms) instead of reporting the loss", kind, k, op.ElapsedUs/1000), "waited-out-timeout")
+				res.Fail("oracle", caseLine, fmt.Sprintf("%s at byte %d (transport error value %s): the operation waited out its timeout (%d ms) instead of reporting the loss", kind, k, c06pick(s, kind, k).name, op.ElapsedUs/1000), "waited-out-timeout")
 				continue
 			case op.SinceLoss > c06Prompt.Microseconds():
 				if !c06confirmSlow(c, sw, k) {
@@ -1235,7 +1325,7 @@ func c06judge(c *ctx, sw *c06sweep, out map[int]c06out, answer string) {
 					res.Fail("oracle", caseLine, fmt.Sprintf("later operation %d hung after %s at byte %d", li, kind, k), "hang:later-operation")
 					bad = true
 				case l.Ident == "nil":
-					res.Fail("oracle", caseLine, fmt.Sprintf("later operation %d succeeded (%q) although the connection was lost (%s at byte %d, first operation: %s)", li, l.Result, kind, k, op.Ident), "later-success")
+					res.Fail("oracle", caseLine, fmt.Sprintf("later operation %d succeeded (%q) although the connection was lost (%s at byte %d, first operation: %s)", li, l.Result, kind, k, op.Ident), "later-success:"+kind)
 					bad = true
 				case l.Ident == "timeout" && lossHit:
 					res.Fail("oracle", caseLine, fmt.Sprintf("later operation %d waited out its timeout (%d ms) after %s at byte %d", li, l.ElapsedUs/1000, kind, k), "later-waited-out-timeout")
@@ -1333,6 +1423,7 @@ func c06judgeIdle(c *ctx, sw *c06sweep, out map[int]c06out, ans []string) {
 		}
 		res.Count("scenario:" + s.Name)
 		res.Count("kind:" + kind)
+		res.Count("error value:" + kind + ":" + c06pick(s, kind, k).name)
 		res.Count(fmt.Sprintf("idle unsolicited class:%d reads:%d", k/4, len(o.obs.Stale)))
 		res.Case(caseLine, true)
 		res.InDomain++
@@ -1387,7 +1478,7 @@ func c06judgeIdle(c *ctx, sw *c06sweep, out map[int]c06out, ans []string) {
 				res.Fail("oracle", caseLine, fmt.Sprintf("%s while idle with %q delivered but unread (%d reads): %s reported success (%q) on the dead connection", kind, stale, len(o.obs.Stale), which, r.Result), "success-after-idle-loss:stale-queue:"+kind+":"+map[bool]string{true: "first", false: "later"}[i == 0])
 				failed = true
 			case r.Ident == "timeout":
-				res.Fail("oracle", caseLine, fmt.Sprintf("%s while idle: %s waited out its timeout (%d ms)", kind, which, r.ElapsedUs/1000), "waited-out-timeout:after-idle-loss")
+				res.Fail("oracle", caseLine, fmt.Sprintf("%s while idle (transport error value %s): %s waited out its timeout (%d ms)", kind, c06pick(s, kind, k).name, which, r.ElapsedUs/1000), "waited-out-timeout:after-idle-loss")
 				failed = true
 			case r.SinceLoss > c06Prompt.Microseconds():
 				res.Fail("oracle", caseLine, fmt.Sprintf("%s while idle: %s returned after %d ms", kind, which, r.SinceLoss/1000), "not-prompt:after-idle-loss")
